@@ -10,9 +10,12 @@
   the hand model `Alpaqa/Model/C18.lean` (tied to the C++ by the correspondence run of
   `checks/c18.py`).  `no_half_write` holds without side conditions: every leaf setter assigns
   only after all its checks have passed (repairs `fixes/C18-half-write-*.diff`).
+  The recursion budgets of the model are chosen from the input by the model itself and are proved
+  sufficient (`setParams_never_fuel`): no statement below has an "or the budget ran out" case.
 -/
 import Alpaqa.Model.C18
 import Alpaqa.Gen.C18
+import Alpaqa.Proofs.C18
 import Mathlib.Algebra.Order.Floor.Ring
 import Mathlib.Algebra.Order.Round
 import Mathlib.Tactic.Linarith
@@ -22,8 +25,10 @@ import Mathlib.Data.Rat.Floor
 
 namespace Alpaqa.Props.C18
 open Alpaqa.C18 Alpaqa.Gen.C18
+open Alpaqa.Proofs.C18 (NoEmptyKey FromCharsConsumes)
 set_option linter.unusedSectionVars false
 set_option linter.unusedVariables false
+set_option linter.unusedSimpArgs false
 
 /-! ## Part A — the generated tables -/
 
@@ -122,6 +127,152 @@ theorem env_is_tables :
     env.structs.map (fun t => (t.1, t.2.map fun e => (e.key, e.member))) = paramTables ∧
     env.enums.map (fun t => (t.1, t.2.map (·.1))) = enumTables := by decide
 
+/-! ### Every declared field is addressed by exactly one key, with its declared kind
+
+`structDecls` is read from the `struct … {…}` definitions in the headers (member name, C++ type,
+kind of that type) — independently of `structs.ipp`; `env` is what the model dispatches on (the
+`PARAMS_TABLE` entries in source order).  A member missing from its table, a key listed twice, an
+entry whose key differs from the member it writes, a table entry for something that is not a
+member, a member of a type without a setter: each makes `every_field_addressed_once` false. -/
+
+/-- Kinds some `set_param` overload exists for (everything but `.other`). -/
+def Kind.settable : Kind → Bool
+  | .other _ => false
+  | _ => true
+
+/-- The one table entry a declared member must have: key = member name, kind = declared kind. -/
+def declEntry (f : FieldDecl) : Entry := { key := f.name, member := f.name, kind := f.kind }
+
+def fieldAddressedOnce (sd : StructDecl) (f : FieldDecl) : Bool :=
+  Kind.settable f.kind &&
+  env.find sd.name f.name.toList == some (declEntry f) &&
+  (env.table sd.name).filter (fun e => e.key == f.name) == [declEntry f] &&
+  (env.table sd.name).filter (fun e => e.member == f.name) == [declEntry f]
+
+def everyFieldAddressedOnce : Bool :=
+  decide ((structDecls.map (·.name)).Nodup) &&
+  structDecls.all fun sd =>
+    decide ((sd.fields.map (·.name)).Nodup) &&
+    sd.fields.all (fieldAddressedOnce sd) &&
+    (env.table sd.name).length == sd.fields.length
+
+theorem every_field_addressed_once : everyFieldAddressedOnce = true := by decide +kernel
+
+/-- **Coverage, per struct.**  For every parameter struct definition and every member declared in
+    it: the member's type has a setter; looking its name up in the struct's table (as
+    `set_param_default` does) finds the entry that writes *that* member with *its declared kind*;
+    exactly one entry has that key and exactly one entry writes that member; and the table has no
+    further entries (as many entries as declared members, member names distinct). -/
+theorem every_declared_field_addressed_once (sd : StructDecl) (hsd : sd ∈ structDecls)
+    (f : FieldDecl) (hf : f ∈ sd.fields) :
+    Kind.settable f.kind = true ∧
+    env.find sd.name f.name.toList = some (declEntry f) ∧
+    (env.table sd.name).filter (fun e => e.key == f.name) = [declEntry f] ∧
+    (env.table sd.name).filter (fun e => e.member == f.name) = [declEntry f] ∧
+    (env.table sd.name).length = sd.fields.length ∧ (sd.fields.map (·.name)).Nodup := by
+  have h := every_field_addressed_once
+  simp only [everyFieldAddressedOnce, Bool.and_eq_true, List.all_eq_true, decide_eq_true_eq] at h
+  obtain ⟨⟨hnd, hfs⟩, hlen⟩ := h.2 sd hsd
+  have hf' := hfs f hf
+  simp only [fieldAddressedOnce, Bool.and_eq_true, beq_iff_eq] at hf'
+  obtain ⟨⟨⟨h1, h2⟩, h3⟩, h4⟩ := hf'
+  exact ⟨h1, h2, h3, h4, by simpa using hlen, hnd⟩
+
+/-- Declared leaves of a struct, through nested parameter structs, in declaration order:
+    member path and declared kind.  `none` when a nested struct type has no definition in
+    `structDecls` or the nesting is deeper than the budget (so neither can make the theorem
+    below vacuously true). -/
+def declLeaves : Nat → String → Path → Option (List (Path × Kind))
+  | 0, _, _ => none
+  | d + 1, s, pre =>
+    match structDecls.find? (·.name == s) with
+    | none => none
+    | some sd =>
+      sd.fields.foldr (fun f acc =>
+        match acc with
+        | none => none
+        | some rest =>
+          match f.kind with
+          | .struct n =>
+            match declLeaves d n (pre ++ [f.name]) with
+            | none => none
+            | some sub => some (sub ++ rest)
+          | k => some ((pre ++ [f.name], k) :: rest)) (some [])
+
+/-- The option key `a.b.c` for the member path `[a, b, c]`. -/
+def keyOf (p : Path) : Str := (".".intercalate p).toList
+
+/-- Parameter structs `set_params` is instantiated for (params.cpp) that have a table. -/
+def topStructs : List String := instList.filter hasTable
+
+def leafAddressed (top : String) (pk : Path × Kind) : Bool :=
+  Kind.settable pk.2 && (match pk.2 with | .struct _ => false | _ => true) &&
+  addressed env (keyFuel (keyOf pk.1)) (.struct top) [] (keyOf pk.1) == some (pk.1, pk.2, [])
+
+def everyLeafAddressed : Bool :=
+  topStructs.all fun top =>
+    match declLeaves 8 top [] with
+    | none => false
+    | some ls => !ls.isEmpty && ls.all (leafAddressed top) && decide ((ls.map (·.1)).Nodup)
+
+theorem every_leaf_addressed : everyLeafAddressed = true := by decide +kernel
+
+/-- **Coverage, per option key.**  For every instantiated parameter struct `top` and every leaf
+    declared in its definition (through nested structs): the key `path.to.field` resolves —
+    through the generated tables, with the budget `set_params` uses — to exactly that member path,
+    with the member's declared kind and nothing left of the key; distinct leaves have distinct
+    paths.  With `set_param_sets` / `set_param_frame`: the option sets that field and no other. -/
+theorem every_declared_leaf_addressed (top : String) (htop : top ∈ topStructs) :
+    ∃ ls, declLeaves 8 top [] = some ls ∧ ls ≠ [] ∧ (ls.map (·.1)).Nodup ∧
+      ∀ p k, (p, k) ∈ ls →
+        addressed env (keyFuel (keyOf p)) (.struct top) [] (keyOf p) = some (p, k, []) ∧
+        Kind.settable k = true ∧ (∀ n, k ≠ .struct n) := by
+  have h := every_leaf_addressed
+  simp only [everyLeafAddressed, List.all_eq_true] at h
+  have ht := h top htop
+  cases hl : declLeaves 8 top [] with
+  | none => simp [hl] at ht
+  | some ls =>
+    simp only [hl, Bool.and_eq_true, List.all_eq_true, decide_eq_true_eq, Bool.not_eq_true',
+      List.isEmpty_eq_false_iff] at ht
+    obtain ⟨⟨hne, hall⟩, hnd⟩ := ht
+    refine ⟨ls, rfl, hne, hnd, fun p k hpk => ?_⟩
+    have := hall (p, k) hpk
+    simp only [leafAddressed, Bool.and_eq_true, beq_iff_eq] at this
+    obtain ⟨⟨h1, h2⟩, h3⟩ := this
+    refine ⟨h3, h1, fun n hn => ?_⟩
+    subst hn
+    simp at h2
+
+/-- Non-vacuity: 17 instantiated structs with 156 declared leaves in total (29 for
+    `PANOCOCPParams`, through `Lipschitz` and `lbfgs_params.cbfgs`); instances of both theorems
+    with every hypothesis discharged on the generated data. -/
+example : topStructs.length = 17 ∧
+    (topStructs.map fun t => ((declLeaves 8 t []).map (·.length)).getD 0).sum = 156 := by decide
+
+example : env.find "PANOCParams" "max_time".toList =
+    some { key := "max_time", member := "max_time", kind := .dur 1 } :=
+  (every_declared_field_addressed_once (structDecls[5]'(by decide)) (List.getElem_mem _)
+    { name := "max_time", cxxType := "std::chrono::nanoseconds", kind := .dur 1 } (by decide)).2.1
+
+example : addressed env (keyFuel "lbfgs_params.cbfgs.ϵ".toList) (.struct "PANOCOCPParams") []
+    "lbfgs_params.cbfgs.ϵ".toList = some (["lbfgs_params", "cbfgs", "ϵ"], .real, []) := by
+  obtain ⟨ls, hls, -, -, h⟩ := every_declared_leaf_addressed "PANOCOCPParams" (by decide)
+  have hmem : ((["lbfgs_params", "cbfgs", "ϵ"] : Path), Kind.real) ∈ ls := by
+    have : ((declLeaves 8 "PANOCOCPParams" []).getD []).contains
+        ((["lbfgs_params", "cbfgs", "ϵ"] : Path), Kind.real) = true := by decide
+    rw [hls] at this
+    simpa using this
+  exact (h _ _ hmem).1
+
+/-- Every non-deprecated enumerator declared in an `enum class` with an `ENUM_TABLE` is found *by
+    its name* in the dispatch environment, with its declared value. -/
+def enumeratorsByName : Bool :=
+  enumDecls.all fun ed => ed.enumerators.all fun e =>
+    e.2.2 || (env.enumTable ed.name).find? (·.1.toList == e.1.toList) == some (e.1, e.2.1)
+
+theorem enumerators_by_name : enumeratorsByName = true := by decide
+
 /-- `bool` literals and the duration unit table are the documented ones (SI factors, in ns). -/
 theorem bool_strings_documented :
     boolStrings = [("0", false), ("false", false), ("1", true), ("true", true)] := by decide
@@ -150,43 +301,163 @@ variable (env : Env) (cfg : DurCfg) (pr : Str → NumRes R)
     `set_param` is exactly the leaf setter applied at `p`. -/
 theorem setParam_of_addressed (fuel : Nat) (k : Kind) (path : Path) (key value : Str) (st : Store R)
     (p : Path) (lk : Kind) (rem : Str) (h : addressed env fuel k path key = some (p, lk, rem)) :
-    setParam env cfg pr fuel k path key value st = applyLeaf st p (setLeaf env cfg pr lk rem value) := by
-  induction fuel generalizing k path key with
-  | zero => simp [addressed] at h
-  | succ n ih =>
-    cases k with
-    | struct name =>
-      simp only [addressed] at h
-      simp only [setParam]
-      cases hf : env.find name (splitKey key).1 with
-      | none => simp [hf] at h
-      | some e =>
-        simp only [hf] at h ⊢
-        exact ih _ _ _ h
-    | _ =>
-      simp only [addressed, Option.some.injEq, Prod.mk.injEq] at h
-      obtain ⟨rfl, rfl, rfl⟩ := h
-      simp only [setParam]
+    setParam env cfg pr fuel k path key value st = applyLeaf st p (setLeaf env cfg pr lk rem value) :=
+  Proofs.C18.setParam_addressed env cfg pr fuel k path key value st p lk rem h
 
-/-- When the key does not resolve, nothing is written and an exception is raised. -/
-theorem setParam_of_not_addressed (fuel : Nat) (k : Kind) (path : Path) (key value : Str) (st : Store R)
+/-! ### The recursion budgets are sufficient: `Err.fuel` is never produced
+
+`addressed` / `setParam` recurse through the tables with a budget, `parseDuration` loops with a
+budget (Lean needs a termination argument; the C++ has none).  `set_params` (model: `setParams`)
+takes `keyFuel key = key.length + 1`, the duration setter takes `value.length`.  The theorems
+below show that these budgets are never exhausted and that any larger budget gives the same
+result, under two facts:
+  * `NoEmptyKey env`: no table has the empty string as a key — proved for the generated tables
+    (`generated_env_no_empty_key`); a `PARAMS_MEMBER` needs an identifier;
+  * `FromCharsConsumes pr`: a successful `from_chars` consumed at least one character
+    ([charconv.from.chars]; without it the C++ loop `while (!s.empty())` would not terminate
+    either).  Proved for the integer parser `parseInt` (`parseInt_consumes`). -/
+
+/-- No generated table has an empty key. -/
+theorem generated_env_no_empty_key : NoEmptyKey Gen.C18.env := by
+  intro name
+  have hall : (Gen.C18.env.structs.all fun t => t.2.all fun e => e.key.toList != []) = true := by decide
+  simp only [Env.find, Env.table]
+  cases hf : Gen.C18.env.structs.find? (·.1 == name) with
+  | none => simp
+  | some t =>
+    have hmem := List.mem_of_find?_eq_some hf
+    simp only [List.all_eq_true] at hall
+    have ht := hall t hmem
+    simp only [List.find?_eq_none]
+    intro e he
+    have := ht e he
+    simpa using this
+
+/-- Any budget above the key length resolves the key the same way. -/
+theorem addressed_fuel_suffices (hne : NoEmptyKey env) (fuel : Nat) (k : Kind) (path : Path) (key : Str)
+    (hf : key.length < fuel) :
+    addressed env fuel k path key = addressed env (keyFuel key) k path key :=
+  Proofs.C18.addressed_fuel env hne fuel k path key hf
+
+/-- When the key does not resolve (some component is not a key of the table reached): `Invalid
+    key`, nothing written — the budget is not what makes the key unresolved. -/
+theorem setParam_of_not_addressed (hne : NoEmptyKey env) (fuel : Nat) (k : Kind) (path : Path)
+    (key value : Str) (st : Store R) (hf : key.length < fuel)
     (h : addressed env fuel k path key = none) :
-    (setParam env cfg pr fuel k path key value st).1 = st ∧
-    ((setParam env cfg pr fuel k path key value st).2 = some .invalidKey ∨
-     (setParam env cfg pr fuel k path key value st).2 = some .fuel) := by
-  induction fuel generalizing k path key with
-  | zero => simp [setParam]
-  | succ n ih =>
-    cases k with
-    | struct name =>
-      simp only [addressed] at h
-      simp only [setParam]
-      cases hf : env.find name (splitKey key).1 with
-      | none => simp
-      | some e =>
-        simp only [hf] at h ⊢
-        exact ih _ _ _ h
-    | _ => simp [addressed] at h
+    setParam env cfg pr fuel k path key value st = (st, some .invalidKey) :=
+  Proofs.C18.setParam_unaddressed env cfg pr hne fuel k path key value st hf h
+
+/-- Any budget above the key length gives the same `set_param` result. -/
+theorem setParam_fuel_suffices (hne : NoEmptyKey env) (fuel : Nat) (k : Kind) (path : Path)
+    (key value : Str) (st : Store R) (hf : key.length < fuel) :
+    setParam env cfg pr fuel k path key value st =
+      setParam env cfg pr (keyFuel key) k path key value st := by
+  have hk : key.length < keyFuel key := Nat.lt_succ_self _
+  have ha := addressed_fuel_suffices env hne fuel k path key hf
+  cases h : addressed env (keyFuel key) k path key with
+  | none =>
+    rw [setParam_of_not_addressed env cfg pr hne fuel k path key value st hf (ha.trans h),
+      setParam_of_not_addressed env cfg pr hne _ k path key value st hk h]
+  | some t =>
+    obtain ⟨p, lk, rem⟩ := t
+    rw [setParam_of_addressed env cfg pr fuel k path key value st p lk rem (ha.trans h),
+      setParam_of_addressed env cfg pr _ k path key value st p lk rem h]
+
+/-- Any budget ≥ the string length gives the same `parse_duration` result. -/
+theorem parseDuration_fuel_suffices (hpr : FromCharsConsumes pr) (res fuel : Nat) (acc : Int) (s : Str)
+    (hf : s.length ≤ fuel) :
+    parseDuration cfg res pr fuel acc s = parseDuration cfg res pr s.length acc s :=
+  Proofs.C18.parseDuration_fuel cfg pr hpr res fuel acc s hf
+
+theorem parseSingle_err (res : Nat) (acc : Int) (s : Str) (e : Err)
+    (h : parseSingle cfg res pr acc s = .error e) : e = .durValue ∨ e = .durUnits :=
+  Proofs.C18.parseSingle_err cfg pr res acc s e h
+
+/-- The only exceptions of `parse_duration`: `invalid_duration_value`, `invalid_duration_units`. -/
+theorem parseDuration_err (hpr : FromCharsConsumes pr) (res fuel : Nat) (acc : Int) (s : Str) (e : Err)
+    (hf : s.length ≤ fuel) (h : (parseDuration cfg res pr fuel acc s).2 = some e) :
+    e = .durValue ∨ e = .durUnits :=
+  Proofs.C18.parseDuration_err_aux cfg pr hpr res fuel acc s e hf h
+
+theorem setVecElems_err (ps : List Str) (done : List R) (e : Err)
+    (h : (setVecElems pr ps done).2 = some e) : e = .numInvalid ∨ e = .numRange ∨ e = .numSuffix := by
+  induction ps generalizing done with
+  | nil => simp [setVecElems] at h
+  | cons p ps ih =>
+    simp only [setVecElems] at h
+    split at h
+    · simp only [Option.some.injEq] at h; simp [← h]
+    · simp only [Option.some.injEq] at h; simp [← h]
+    · exact ih _ h
+    · simp only [Option.some.injEq] at h; simp [← h]
+
+/-- No leaf setter ever reports an exhausted budget. -/
+theorem setLeaf_never_fuel (hpr : FromCharsConsumes pr) (k : Kind) (key value : Str) :
+    (setLeaf env cfg pr k key value).2 ≠ some .fuel := by
+  cases k with
+  | dur res =>
+    simp only [setLeaf]
+    split
+    · simp
+    · split
+      · simp
+      · rename_i t e he
+        intro h
+        simp only [Option.some.injEq] at h
+        subst h
+        have := parseDuration_err cfg pr hpr res value.length 0 value .fuel (Nat.le_refl _) (by rw [he])
+        simp at this
+  | vec =>
+    simp only [setLeaf]
+    split
+    · simp
+    · rename_i xs e he
+      intro h
+      simp only [Option.some.injEq] at h
+      subst h
+      have := setVecElems_err pr _ [] .fuel (by rw [he])
+      simp at this
+  | bool => simp only [setLeaf]; repeat' split
+            all_goals simp
+  | int lo hi => simp only [setLeaf]; repeat' split
+                 all_goals simp
+  | real => simp only [setLeaf]; repeat' split
+            all_goals simp
+  | enum n => simp only [setLeaf]; repeat' split
+              all_goals simp
+  | struct n => simp [setLeaf]
+  | other n => simp [setLeaf]
+
+/-- `set_param` with a budget above the key length never reports an exhausted budget. -/
+theorem setParam_never_fuel (hne : NoEmptyKey env) (hpr : FromCharsConsumes pr) (fuel : Nat) (k : Kind)
+    (path : Path) (key value : Str) (st : Store R) (hf : key.length < fuel) :
+    (setParam env cfg pr fuel k path key value st).2 ≠ some .fuel := by
+  cases h : addressed env fuel k path key with
+  | none => rw [setParam_of_not_addressed env cfg pr hne fuel k path key value st hf h]; simp
+  | some t =>
+    obtain ⟨p, lk, rem⟩ := t
+    rw [setParam_of_addressed env cfg pr fuel k path key value st p lk rem h,
+      Proofs.C18.applyLeaf_err]
+    exact setLeaf_never_fuel env cfg pr hpr lk rem value
+
+/-- **`set_params` never reports an exhausted budget**: the function the driver runs picks its
+    budgets from the input (`keyFuel`, `value.length`), and they always suffice. -/
+theorem setParams_never_fuel (hne : NoEmptyKey env) (hpr : FromCharsConsumes pr) (top : Kind) (pfx : Str)
+    (opts : List Str) (st : Store R) :
+    (setParams env cfg pr top pfx opts st).2.2 ≠ some .fuel := by
+  induction opts generalizing st with
+  | nil => simp [setParams]
+  | cons kv rest ih =>
+    simp only [setParams]
+    split
+    · exact ih st
+    · have hnf := setParam_never_fuel env cfg pr hne hpr (keyFuel (optKey kv)) top [] (optKey kv)
+        (optValue kv) st (Nat.lt_succ_self _)
+      split
+      · rename_i st1 err hs
+        rw [hs] at hnf
+        simpa using hnf
+      · exact ih _
 
 theorem applyLeaf_frame (st : Store R) (p q : Path) (w : Option (Leaf R) × Option Err) (hq : q ≠ p) :
     (applyLeaf st p w).1 q = st q := by
@@ -199,7 +470,7 @@ theorem set_param_frame (fuel : Nat) (k : Kind) (path : Path) (key value : Str) 
     (hq : ∀ p lk rem, addressed env fuel k path key = some (p, lk, rem) → q ≠ p) :
     (setParam env cfg pr fuel k path key value st).1 q = st q := by
   cases h : addressed env fuel k path key with
-  | none => rw [(setParam_of_not_addressed env cfg pr fuel k path key value st h).1]
+  | none => rw [(Proofs.C18.setParam_unaddressed_store env cfg pr fuel k path key value st h).1]
   | some t =>
     obtain ⟨p, lk, rem⟩ := t
     rw [setParam_of_addressed env cfg pr fuel k path key value st p lk rem h]
@@ -233,9 +504,7 @@ theorem set_param_sets (fuel : Nat) (k : Kind) (path : Path) (key value : Str) (
       setLeaf env cfg pr lk rem value = (some l, none) ∧
       (setParam env cfg pr fuel k path key value st).1 p = some l := by
   cases h : addressed env fuel k path key with
-  | none =>
-    rcases (setParam_of_not_addressed env cfg pr fuel k path key value st h).2 with h2 | h2 <;>
-      simp [h2] at hok
+  | none => exact absurd hok (Proofs.C18.setParam_unaddressed_store env cfg pr fuel k path key value st h).2
   | some t =>
     obtain ⟨p, lk, rem⟩ := t
     rw [setParam_of_addressed env cfg pr fuel k path key value st p lk rem h] at hok ⊢
@@ -251,7 +520,14 @@ theorem set_param_sets (fuel : Nat) (k : Kind) (path : Path) (key value : Str) (
       subst hok
       exact ⟨l, rfl, rfl, by simp [applyLeaf, Store.set]⟩
 
-/-! ### What the leaf setters store (numbers exactly, booleans, enumerators by name, vectors) -/
+/-! ### What the leaf setters store (numbers exactly, booleans, enumerators by name, vectors)
+
+The `leaf_*` statements below are read off the definition of the hand model `setLeaf` (what ties
+`setLeaf` to the C++ setters is the correspondence sweep: every leaf of every struct × valid /
+malformed values, bit-identical).  The statements with content beyond the definition are the ones
+against generated data: `leaf_bool_generated` (literal list of params.cpp),
+`declared_enumerator_sets_value` (every declared enumerator, by name, gets its declared value),
+`every_declared_leaf_addressed` (which leaf a key reaches) and `duration_field_sum_round`. -/
 
 theorem leaf_bool (key value : Str) (hk : key = []) :
     setLeaf env cfg pr .bool key value =
@@ -302,6 +578,20 @@ theorem leaf_vec_elementwise (key value : Str) (vs : List R)
     (h : List.Forall₂ (fun p v => pr p = .ok v []) (pieces (value.count ',' + 1) value) vs) :
     setLeaf env cfg pr .vec key value = (some (.v vs), none) := by
   simp [setLeaf, setVecElems_ok pr _ [] vs h]
+
+/-- The element count `count(',') + 1` of the `vec` setter is exactly right: the pieces it parses
+    are all of the value (joined with `,` they give the value back) and none contains a `,` —
+    the loop over `w` neither stops early nor runs past the end of the string. -/
+theorem vec_pieces_complete (value : Str) :
+    List.intercalate [','] (pieces (value.count ',' + 1) value) = value ∧
+    (pieces (value.count ',' + 1) value).length = value.count ',' + 1 ∧
+    ∀ p ∈ pieces (value.count ',' + 1) value, ',' ∉ p := by
+  obtain ⟨h1, h2⟩ := Proofs.C18.pieces_complete (value.count ',') value rfl
+  refine ⟨h1, ?_, h2⟩
+  generalize value.count ',' + 1 = n
+  induction n generalizing value with
+  | zero => rfl
+  | succ n ih => simp [pieces, ih]
 
 /-! ### Rejections -/
 
@@ -369,6 +659,27 @@ theorem parseInt_in_range (lo hi : Int) (s : Str) (v : Int) (rest : Str)
        simp only [Bool.or_eq_true, decide_eq_true_eq, not_or, not_lt] at hr
        rw [← h1]; exact hr)
 
+/-- Integer `from_chars` consumes at least one character on success. -/
+theorem parseInt_consumes (lo hi : Int) : FromCharsConsumes (parseInt lo hi) := by
+  intro s v rest h
+  unfold parseInt at h
+  simp only at h
+  split at h
+  all_goals
+    split at h
+    · simp at h
+    · rename_i hne
+      split at h
+      · simp at h
+      · simp only [NumRes.ok.injEq] at h
+        obtain ⟨-, rfl⟩ := h
+        have h1 := Proofs.C18.length_dropWhile_lt Char.isDigit _ (by simpa using hne)
+        first
+          | omega
+          | (have h2 : (List.tail s).length ≤ s.length := by simp
+             simp only [List.drop_one] at h1 ⊢
+             omega)
+
 /-- Bad units: the number of the first component parses, the unit token is not in the table. -/
 theorem bad_units_rejected (res : Nat) (acc : Int) (s : Str) (v : R) (rest : Str)
     (hne : (s.dropWhile fun c => cfg.trim.contains c).isEmpty = false)
@@ -377,38 +688,6 @@ theorem bad_units_rejected (res : Nat) (acc : Int) (s : Str) (v : R) (rest : Str
     parseSingle cfg res pr acc s = .error .durUnits := by
   unfold parseSingle
   simp only [hne, Bool.false_eq_true, ↓reduceIte, hv, hu]
-
-theorem parseSingle_err (res : Nat) (acc : Int) (s : Str) (e : Err)
-    (h : parseSingle cfg res pr acc s = .error e) : e = .durValue ∨ e = .durUnits := by
-  unfold parseSingle at h
-  simp only at h
-  repeat' split at h
-  all_goals first
-    | (simp at h; done)
-    | (simp only [Except.error.injEq] at h; subst h; simp)
-
-theorem parseDuration_err (res fuel : Nat) (acc : Int) (s : Str) (e : Err)
-    (h : (parseDuration cfg res pr fuel acc s).2 = some e) :
-    e = .durValue ∨ e = .durUnits ∨ e = .fuel := by
-  induction fuel generalizing acc s with
-  | zero =>
-    cases s with
-    | nil => simp [parseDuration] at h
-    | cons c cs => simp only [parseDuration, Option.some.injEq] at h; exact Or.inr (Or.inr h.symm)
-  | succ n ih =>
-    cases s with
-    | nil => simp [parseDuration] at h
-    | cons c cs =>
-      simp only [parseDuration] at h
-      cases hs : parseSingle cfg res pr acc (c :: cs) with
-      | error e' =>
-        simp only [hs, Option.some.injEq] at h
-        subst h
-        rcases parseSingle_err cfg pr res acc _ _ hs with h' | h' <;> simp [h']
-      | ok r =>
-        obtain ⟨a, rest⟩ := r
-        simp only [hs] at h
-        exact ih _ _ h
 
 /-- Bad units in the first component of a duration field: rejected with `Invalid units`,
     nothing written. -/
@@ -504,7 +783,7 @@ theorem no_half_write (fuel : Nat) (k : Kind) (path : Path) (key value : Str) (s
     (h : setParam env cfg pr fuel k path key value st = (st', some e)) : st' = st := by
   cases ha : addressed env fuel k path key with
   | none =>
-    have := (setParam_of_not_addressed env cfg pr fuel k path key value st ha).1
+    have := (Proofs.C18.setParam_unaddressed_store env cfg pr fuel k path key value st ha).1
     rw [h] at this; exact this
   | some t =>
     obtain ⟨p, lk, rem⟩ := t
@@ -521,9 +800,9 @@ theorem no_half_write (fuel : Nat) (k : Kind) (path : Path) (key value : Str) (s
 /-! ### `set_params`: prefix filter, `used` counters, state at a throw -/
 
 /-- Options with a different prefix are ignored: no write, no exception, no count. -/
-theorem other_prefix_ignored (fuel : Nat) (top : Kind) (pfx : Str) (opts : List Str) (st : Store R)
+theorem other_prefix_ignored (top : Kind) (pfx : Str) (opts : List Str) (st : Store R)
     (h : ∀ kv ∈ opts, optPrefix kv ≠ pfx) :
-    setParams env cfg pr fuel top pfx opts st = (st, opts.map (fun _ => 0), none) := by
+    setParams env cfg pr top pfx opts st = (st, opts.map (fun _ => 0), none) := by
   induction opts generalizing st with
   | nil => rfl
   | cons kv rest ih =>
@@ -531,8 +810,8 @@ theorem other_prefix_ignored (fuel : Nat) (top : Kind) (pfx : Str) (opts : List 
     have h2 := ih st (fun kv' hk => h kv' (by simp [hk]))
     simp [setParams, h1, h2]
 
-theorem used_length (fuel : Nat) (top : Kind) (pfx : Str) (opts : List Str) (st : Store R) :
-    (setParams env cfg pr fuel top pfx opts st).2.1.length = opts.length := by
+theorem used_length (top : Kind) (pfx : Str) (opts : List Str) (st : Store R) :
+    (setParams env cfg pr top pfx opts st).2.1.length = opts.length := by
   induction opts generalizing st with
   | nil => rfl
   | cons kv rest ih =>
@@ -543,9 +822,9 @@ theorem used_length (fuel : Nat) (top : Kind) (pfx : Str) (opts : List Str) (st 
 
 /-- **Usage is counted per option.**  When `set_params` returns normally, `used[i]` was
     incremented exactly for the options whose prefix matches (once each). -/
-theorem used_counts (fuel : Nat) (top : Kind) (pfx : Str) (opts : List Str) (st : Store R)
-    (hok : (setParams env cfg pr fuel top pfx opts st).2.2 = none) :
-    (setParams env cfg pr fuel top pfx opts st).2.1 =
+theorem used_counts (top : Kind) (pfx : Str) (opts : List Str) (st : Store R)
+    (hok : (setParams env cfg pr top pfx opts st).2.2 = none) :
+    (setParams env cfg pr top pfx opts st).2.1 =
       opts.map fun kv => if optPrefix kv = pfx then 1 else 0 := by
   induction opts generalizing st with
   | nil => rfl
@@ -553,7 +832,7 @@ theorem used_counts (fuel : Nat) (top : Kind) (pfx : Str) (opts : List Str) (st 
     simp only [setParams] at hok ⊢
     by_cases hp : optPrefix kv = pfx
     · simp only [hp, bne_self_eq_false, Bool.false_eq_true, ↓reduceIte] at hok ⊢
-      rcases hs : setParam env cfg pr fuel top [] (optKey kv) (optValue kv) st with ⟨st1, _ | err⟩
+      rcases hs : setParam env cfg pr (keyFuel (optKey kv)) top [] (optKey kv) (optValue kv) st with ⟨st1, _ | err⟩
       · simp only [hs] at hok ⊢
         simp [ih st1 hok, hp]
       · simp [hs] at hok
@@ -562,16 +841,16 @@ theorem used_counts (fuel : Nat) (top : Kind) (pfx : Str) (opts : List Str) (st 
       simp [ih st hok, hp]
 
 /-- Also when it throws, no option is counted twice and only matching options are counted. -/
-theorem used_le (fuel : Nat) (top : Kind) (pfx : Str) (opts : List Str) (st : Store R) :
+theorem used_le (top : Kind) (pfx : Str) (opts : List Str) (st : Store R) :
     List.Forall₂ (fun u kv => u = 0 ∨ (u = 1 ∧ optPrefix kv = pfx))
-      (setParams env cfg pr fuel top pfx opts st).2.1 opts := by
+      (setParams env cfg pr top pfx opts st).2.1 opts := by
   induction opts generalizing st with
   | nil => exact List.Forall₂.nil
   | cons kv rest ih =>
     simp only [setParams]
     by_cases hp : optPrefix kv = pfx
     · simp only [hp, bne_self_eq_false, Bool.false_eq_true, ↓reduceIte]
-      rcases hs : setParam env cfg pr fuel top [] (optKey kv) (optValue kv) st with ⟨st1, _ | err⟩
+      rcases hs : setParam env cfg pr (keyFuel (optKey kv)) top [] (optKey kv) (optValue kv) st with ⟨st1, _ | err⟩
       · exact List.Forall₂.cons (Or.inr ⟨rfl, hp⟩) (ih st1)
       · refine List.Forall₂.cons (Or.inr ⟨rfl, hp⟩) ?_
         clear ih hs
@@ -585,35 +864,35 @@ theorem used_le (fuel : Nat) (top : Kind) (pfx : Str) (opts : List Str) (st : St
 /-- **State at a throw.**  If `set_params` throws, the object is exactly what the options
     *before* the failing one made it: there is a split `opts = before ++ failing :: after` such
     that applying `before` alone succeeds and yields the very same store.  No side condition. -/
-theorem set_params_no_half_write (fuel : Nat) (top : Kind) (pfx : Str) (opts : List Str) (st st' : Store R)
+theorem set_params_no_half_write (top : Kind) (pfx : Str) (opts : List Str) (st st' : Store R)
     (u : List Nat) (e : Err)
-    (h : setParams env cfg pr fuel top pfx opts st = (st', u, some e)) :
+    (h : setParams env cfg pr top pfx opts st = (st', u, some e)) :
     ∃ before failing after u', opts = before ++ failing :: after ∧
-      setParams env cfg pr fuel top pfx before st = (st', u', none) := by
+      setParams env cfg pr top pfx before st = (st', u', none) := by
   induction opts generalizing st u with
   | nil => simp [setParams] at h
   | cons kv rest ih =>
     simp only [setParams] at h
     by_cases hp : optPrefix kv = pfx
     · simp only [hp, bne_self_eq_false, Bool.false_eq_true, ↓reduceIte] at h
-      rcases hs : setParam env cfg pr fuel top [] (optKey kv) (optValue kv) st with ⟨st1, _ | err⟩
+      rcases hs : setParam env cfg pr (keyFuel (optKey kv)) top [] (optKey kv) (optValue kv) st with ⟨st1, _ | err⟩
       · simp only [hs, Prod.mk.injEq] at h
         obtain ⟨b, f, a, u', hsplit, hb⟩ :=
-          ih st1 (setParams env cfg pr fuel top pfx rest st1).2.1 (by
-            rcases hr : setParams env cfg pr fuel top pfx rest st1 with ⟨s2, u2, e2⟩
+          ih st1 (setParams env cfg pr top pfx rest st1).2.1 (by
+            rcases hr : setParams env cfg pr top pfx rest st1 with ⟨s2, u2, e2⟩
             simp only [hr] at h ⊢
             rw [h.1, h.2.2])
         refine ⟨kv :: b, f, a, 1 :: u', by simp [hsplit], ?_⟩
         simp [setParams, hp, hs, hb]
       · simp only [hs, Prod.mk.injEq, Option.some.injEq] at h
         obtain ⟨rfl, -, rfl⟩ := h
-        have := no_half_write env cfg pr fuel top [] (optKey kv) (optValue kv) st st1 err hs
+        have := no_half_write env cfg pr (keyFuel (optKey kv)) top [] (optKey kv) (optValue kv) st st1 err hs
         exact ⟨[], kv, rest, [], rfl, by simp [setParams, this]⟩
     · have hp' : (optPrefix kv != pfx) = true := by simpa using hp
       simp only [hp', ↓reduceIte, Prod.mk.injEq] at h
       obtain ⟨b, f, a, u', hsplit, hb⟩ :=
-        ih st (setParams env cfg pr fuel top pfx rest st).2.1 (by
-          rcases hr : setParams env cfg pr fuel top pfx rest st with ⟨s2, u2, e2⟩
+        ih st (setParams env cfg pr top pfx rest st).2.1 (by
+          rcases hr : setParams env cfg pr top pfx rest st with ⟨s2, u2, e2⟩
           simp only [hr] at h ⊢
           rw [h.1, h.2.2])
       refine ⟨kv :: b, f, a, 0 :: u', by simp [hsplit], ?_⟩
@@ -621,22 +900,22 @@ theorem set_params_no_half_write (fuel : Nat) (top : Kind) (pfx : Str) (opts : L
 
 /-- **Frame for `set_params`.**  A leaf that no option with the right prefix addresses is equal
     before and after (return or throw). -/
-theorem set_params_frame (fuel : Nat) (top : Kind) (pfx : Str) (opts : List Str) (st : Store R) (q : Path)
+theorem set_params_frame (top : Kind) (pfx : Str) (opts : List Str) (st : Store R) (q : Path)
     (hq : ∀ kv ∈ opts, optPrefix kv = pfx →
-      ∀ p lk rem, addressed env fuel top [] (optKey kv) = some (p, lk, rem) → q ≠ p) :
-    (setParams env cfg pr fuel top pfx opts st).1 q = st q := by
+      ∀ p lk rem, addressed env (keyFuel (optKey kv)) top [] (optKey kv) = some (p, lk, rem) → q ≠ p) :
+    (setParams env cfg pr top pfx opts st).1 q = st q := by
   induction opts generalizing st with
   | nil => rfl
   | cons kv rest ih =>
     have hq' : ∀ kv' ∈ rest, optPrefix kv' = pfx →
-        ∀ p lk rem, addressed env fuel top [] (optKey kv') = some (p, lk, rem) → q ≠ p :=
+        ∀ p lk rem, addressed env (keyFuel (optKey kv')) top [] (optKey kv') = some (p, lk, rem) → q ≠ p :=
       fun kv' hk => hq kv' (by simp [hk])
     simp only [setParams]
     by_cases hp : optPrefix kv = pfx
     · simp only [hp, bne_self_eq_false, Bool.false_eq_true, ↓reduceIte]
-      have hf := set_param_frame env cfg pr fuel top [] (optKey kv) (optValue kv) st q
+      have hf := set_param_frame env cfg pr (keyFuel (optKey kv)) top [] (optKey kv) (optValue kv) st q
         (hq kv (by simp) hp)
-      rcases hs : setParam env cfg pr fuel top [] (optKey kv) (optValue kv) st with ⟨st1, _ | err⟩
+      rcases hs : setParam env cfg pr (keyFuel (optKey kv)) top [] (optKey kv) (optValue kv) st with ⟨st1, _ | err⟩
       · simp only [hs] at hf ⊢
         rw [ih st1 hq', hf]
       · simp only [hs] at hf ⊢
@@ -644,6 +923,98 @@ theorem set_params_frame (fuel : Nat) (top : Kind) (pfx : Str) (opts : List Str)
     · have hp' : (optPrefix kv != pfx) = true := by simpa using hp
       simp only [hp', ↓reduceIte]
       exact ih st hq'
+
+/-! ### Prefix handling, option by option
+
+`set_params` compares the *whole* first key component (up to the first `.` of the part before
+`=`) with the requested prefix: `solverx.…`, `solver2=…`, `solver_x.…` are options of another
+prefix when `solver` is requested (`optPrefix_ne_of_proper_extension`), wherever they stand in the
+list and whatever their key and value look like (`other_prefix_option_ignored`); an option whose
+first component *is* the prefix is applied to the object the earlier options produced and
+counted exactly once (`matching_option_applied_once`). -/
+
+/-- The first key component: everything before the first `=` or `.`. -/
+theorem optPrefix_eq_takeWhile (kv : Str) :
+    optPrefix kv = kv.takeWhile (fun c => c != '=' && c != '.') := by
+  simp only [optPrefix, splitKey]
+  exact Proofs.C18.takeWhile_takeWhile' _ _ kv
+
+/-- A first component that properly extends the requested prefix (`pfx` followed by any character
+    other than the two delimiters) is a different prefix — for every `pfx` and continuation. -/
+theorem optPrefix_ne_of_proper_extension (pfx : Str) (c : Char) (more : Str)
+    (hc : c ≠ '.' ∧ c ≠ '=') : optPrefix (pfx ++ c :: more) ≠ pfx := by
+  intro h
+  rw [optPrefix_eq_takeWhile] at h
+  have := Proofs.C18.takeWhile_append_cons_eq _ pfx c more h
+  simp [hc.1, hc.2] at this
+
+/-- `set_params` over a concatenated option list = `set_params` over the first part, then (unless
+    that threw) over the second part on the resulting object; `used` entries are concatenated. -/
+theorem set_params_append (top : Kind) (pfx : Str) (a b : List Str) (st : Store R) :
+    setParams env cfg pr top pfx (a ++ b) st =
+      match setParams env cfg pr top pfx a st with
+      | (st1, ua, none) =>
+        ((setParams env cfg pr top pfx b st1).1, ua ++ (setParams env cfg pr top pfx b st1).2.1,
+          (setParams env cfg pr top pfx b st1).2.2)
+      | (st1, ua, some e) => (st1, ua ++ b.map (fun _ => 0), some e) := by
+  induction a generalizing st with
+  | nil =>
+    simp only [List.nil_append, setParams, List.nil_append]
+  | cons kv rest ih =>
+    simp only [List.cons_append, setParams]
+    by_cases hp : optPrefix kv = pfx
+    · simp only [hp, bne_self_eq_false, Bool.false_eq_true, ↓reduceIte]
+      rcases hs : setParam env cfg pr (keyFuel (optKey kv)) top [] (optKey kv) (optValue kv) st with ⟨st1, _ | err⟩
+      · simp only [ih st1]
+        rcases hr : setParams env cfg pr top pfx rest st1 with ⟨s2, u2, _ | e2⟩ <;> simp
+      · simp
+    · have hp' : (optPrefix kv != pfx) = true := by simpa using hp
+      simp only [hp', ↓reduceIte, ih st]
+      rcases hr : setParams env cfg pr top pfx rest st with ⟨s2, u2, _ | e2⟩ <;> simp
+
+/-- **An option with another prefix is ignored, per option**: inserting it anywhere in any option
+    list leaves the resulting object and the exception (if any) unchanged, its own `used` entry
+    is 0 and every other `used` entry is unchanged.  Nothing is assumed about its key or value
+    (they may be unknown / malformed: it is never handed to `set_param`). -/
+theorem other_prefix_option_ignored (top : Kind) (pfx : Str) (a b : List Str) (kv : Str) (st : Store R)
+    (h : optPrefix kv ≠ pfx) :
+    (setParams env cfg pr top pfx (a ++ kv :: b) st).1 = (setParams env cfg pr top pfx (a ++ b) st).1 ∧
+    (setParams env cfg pr top pfx (a ++ kv :: b) st).2.2 = (setParams env cfg pr top pfx (a ++ b) st).2.2 ∧
+    (setParams env cfg pr top pfx (a ++ kv :: b) st).2.1 =
+      (setParams env cfg pr top pfx (a ++ b) st).2.1.take a.length ++
+        0 :: (setParams env cfg pr top pfx (a ++ b) st).2.1.drop a.length := by
+  have hp' : (optPrefix kv != pfx) = true := by simpa using h
+  have hlen := used_length env cfg pr top pfx a st
+  rw [set_params_append env cfg pr top pfx a (kv :: b) st, set_params_append env cfg pr top pfx a b st]
+  rcases hr : setParams env cfg pr top pfx a st with ⟨st1, ua, _ | e⟩
+  · rw [hr] at hlen
+    simp only at hlen
+    simp only [setParams, hp', ↓reduceIte, true_and]
+    rw [List.take_append_of_le_length (by omega), List.drop_append_of_le_length (by omega)]
+    simp [← hlen]
+  · rw [hr] at hlen
+    simp only at hlen
+    simp only [true_and, List.map_cons]
+    rw [List.take_append_of_le_length (by omega), List.drop_append_of_le_length (by omega)]
+    simp [← hlen]
+
+/-- **An option with the requested prefix is applied and counted once**: if the options before it
+    ran without exception and produced `st1`, `set_param` is called with its key remainder and
+    value on `st1`, its `used` entry is exactly 1, and the remaining options continue from the
+    result (or, if it throws, the remaining `used` entries stay 0 and the object is what
+    `set_param` left — equal to `st1` by `no_half_write`). -/
+theorem matching_option_applied_once (top : Kind) (pfx : Str) (a b : List Str) (kv : Str)
+    (st st1 : Store R) (ua : List Nat) (h : optPrefix kv = pfx)
+    (ha : setParams env cfg pr top pfx a st = (st1, ua, none)) :
+    setParams env cfg pr top pfx (a ++ kv :: b) st =
+      match setParam env cfg pr (keyFuel (optKey kv)) top [] (optKey kv) (optValue kv) st1 with
+      | (st2, some err) => (st2, ua ++ 1 :: b.map (fun _ => 0), some err)
+      | (st2, none) =>
+        ((setParams env cfg pr top pfx b st2).1, ua ++ 1 :: (setParams env cfg pr top pfx b st2).2.1,
+          (setParams env cfg pr top pfx b st2).2.2) := by
+  rw [set_params_append env cfg pr top pfx a (kv :: b) st, ha]
+  simp only [setParams, h, bne_self_eq_false, Bool.false_eq_true, ↓reduceIte]
+  rcases hs : setParam env cfg pr (keyFuel (optKey kv)) top [] (optKey kv) (optValue kv) st1 with ⟨st2, _ | err⟩ <;> simp
 
 /-! ### Durations: components are summed onto the running value, inside the `int64` range -/
 
@@ -692,7 +1063,314 @@ theorem parseDuration_component (res fuel : Nat) (acc : Int) (c : Char) (cs : St
   refine ⟨((durAdd_spec u res v acc hacc).2 a ha).1, ?_⟩
   simp only [parseDuration, parseSingle, hne, hv, hu, ha, Bool.false_eq_true, ↓reduceIte]
 
+/-! ### Multi-component durations: the sum of the rounded components, or rejected
+
+`DurComps cfg pr s cs`: the string `s` is a sequence of components — each: optional trim
+characters (`+`, blank), a number accepted by `from_chars` (`pr`), then the unit token (everything
+up to the next character of the stop set `+-0123456789. `), which must be a unit of the table —
+followed by optional trim characters; `cs` lists (value, unit period in ns) in order.
+`DurComps.of_syntax` builds it from the concrete syntax `seps ++ number ++ unit ++ more`.
+`durSum` is the checked sum: each component goes through `durAdd` (range check of the count,
+`std::chrono::round<Duration>` = `chronoRound`, overflow check of the sum).
+
+`parse_duration_sum_round`: `parse_duration` accepts `s` with result `t` **iff** `s` has such a
+decomposition and `durSum = some t`; then `t = Σ chronoRound unitᵢ res vᵢ` (`durSum_eq_sum`) and
+each summand is the nearest integer to `vᵢ·unitᵢ/res`, ties to even (`duration_rounding`, on the
+generated unit table).  Otherwise the setter throws `invalid_duration_value` / `_units` and the
+field is untouched (`malformed_duration_rejected`). -/
+
+/-- Well-formed duration string, relative to the number syntax of `from_chars` (`pr`). -/
+inductive DurComps : Str → List (R × Nat) → Prop
+  | done (s : Str) (h : (s.dropWhile fun c => cfg.trim.contains c) = []) : DurComps s []
+  | comp (s : Str) (v : R) (rest : Str) (u : Nat) (cs : List (R × Nat))
+      (hne : (s.dropWhile fun c => cfg.trim.contains c) ≠ [])
+      (hv : pr (s.dropWhile fun c => cfg.trim.contains c) = .ok v rest)
+      (hu : cfg.unit? (rest.takeWhile fun c => !cfg.stop.contains c) = some u)
+      (htl : DurComps (rest.dropWhile fun c => !cfg.stop.contains c) cs) : DurComps s ((v, u) :: cs)
+
+/-- The checked sum `parse_duration` computes: every component through `durAdd` (`none` = some
+    component's count or the running sum leaves the `int64` range). -/
+def durSum (res : Nat) : Int → List (R × Nat) → Option Int
+  | acc, [] => some acc
+  | acc, (v, u) :: cs =>
+    match durAdd u res v acc with
+    | none => none
+    | some a => durSum res a cs
+
+/-- An accepted sum is the plain integer sum of the rounded components, inside `int64`. -/
+theorem durSum_eq_sum (res : Nat) (acc : Int) (cs : List (R × Nat)) (t : Int)
+    (hacc : repMin ≤ acc ∧ acc ≤ repMax) (h : durSum res acc cs = some t) :
+    t = acc + (cs.map fun c => chronoRound c.2 res c.1).sum ∧ repMin ≤ t ∧ t ≤ repMax := by
+  induction cs generalizing acc with
+  | nil =>
+    simp only [durSum, Option.some.injEq] at h
+    subst h
+    simpa using hacc
+  | cons c cs ih =>
+    obtain ⟨v, u⟩ := c
+    simp only [durSum] at h
+    cases ha : durAdd u res v acc with
+    | none => simp [ha] at h
+    | some a =>
+      simp only [ha] at h
+      have hs := (durAdd_spec u res v acc hacc).2 a ha
+      obtain ⟨h1, h2⟩ := ih a hs.2 h
+      refine ⟨?_, h2⟩
+      rw [h1, hs.1]
+      simp only [List.map_cons, List.sum_cons]
+      omega
+
+/-- On a decomposable string `parse_duration` returns the checked sum, or throws
+    `invalid_duration_value` when the checked sum refuses a component. -/
+theorem parseDuration_of_comps (hpr : FromCharsConsumes pr) (res : Nat) (s : Str) (cs : List (R × Nat))
+    (h : DurComps cfg pr s cs) (acc : Int) :
+    (∀ t, durSum res acc cs = some t → parseDuration cfg res pr s.length acc s = (t, none)) ∧
+    (durSum res acc cs = none → (parseDuration cfg res pr s.length acc s).2 = some .durValue) := by
+  induction h generalizing acc with
+  | done s hd =>
+    cases s with
+    | nil => simp [parseDuration, durSum]
+    | cons c cs' =>
+      have hs : parseSingle cfg res pr acc (c :: cs') = .ok (acc, []) := by
+        unfold parseSingle
+        simp only [hd, List.isEmpty_nil, ↓reduceIte]
+      simp [parseDuration, hs, Proofs.C18.parseDuration_nil, durSum]
+  | comp s v rest u cs hne hv hu htl ih =>
+    cases s with
+    | nil => simp at hne
+    | cons c cs' =>
+      have hiE : ((c :: cs').dropWhile fun c => cfg.trim.contains c).isEmpty = false := by
+        cases hh : ((c :: cs').dropWhile fun c => cfg.trim.contains c) with
+        | nil => exact absurd hh hne
+        | cons _ _ => rfl
+      cases ha : durAdd u res v acc with
+      | none =>
+        have hs : parseSingle cfg res pr acc (c :: cs') = .error .durValue := by
+          unfold parseSingle
+          simp only [hiE, Bool.false_eq_true, ↓reduceIte, hv, hu, ha]
+        simp [parseDuration, hs, durSum, ha]
+      | some a =>
+        have hs : parseSingle cfg res pr acc (c :: cs') =
+            .ok (a, rest.dropWhile fun c => !cfg.stop.contains c) := by
+          unfold parseSingle
+          simp only [hiE, Bool.false_eq_true, ↓reduceIte, hv, hu, ha]
+        have hlt := Proofs.C18.parseSingle_rest_lt cfg pr hpr res acc a (c :: cs') _ (by simp) hs
+        simp only [List.length_cons] at hlt
+        have hfu := Proofs.C18.parseDuration_fuel cfg pr hpr res cs'.length a
+          (rest.dropWhile fun c => !cfg.stop.contains c) (by omega)
+        simp only [List.length_cons, parseDuration, hs, durSum, ha, hfu]
+        exact ih a
+
+/-- Conversely, whenever `parse_duration` returns normally the string decomposes and the result
+    is the checked sum of that decomposition (any budget). -/
+theorem comps_of_parseDuration (res fuel : Nat) (acc : Int) (s : Str) (t : Int)
+    (h : parseDuration cfg res pr fuel acc s = (t, none)) :
+    ∃ cs, DurComps cfg pr s cs ∧ durSum res acc cs = some t := by
+  induction fuel generalizing acc s with
+  | zero =>
+    cases s with
+    | nil =>
+      simp only [parseDuration, Prod.mk.injEq, and_true] at h
+      exact ⟨[], .done [] rfl, by simp [durSum, h]⟩
+    | cons c cs => simp [parseDuration] at h
+  | succ n ih =>
+    cases s with
+    | nil =>
+      simp only [parseDuration, Prod.mk.injEq, and_true] at h
+      exact ⟨[], .done [] rfl, by simp [durSum, h]⟩
+    | cons c cs' =>
+      simp only [parseDuration] at h
+      cases hs : parseSingle cfg res pr acc (c :: cs') with
+      | error e => simp [hs] at h
+      | ok r =>
+        obtain ⟨a, rest'⟩ := r
+        simp only [hs] at h
+        obtain ⟨cs, hc, hsum⟩ := ih a rest' h
+        unfold parseSingle at hs
+        simp only at hs
+        split at hs
+        · rename_i hE
+          simp only [Except.ok.injEq, Prod.mk.injEq] at hs
+          obtain ⟨rfl, rfl⟩ := hs
+          cases hc with
+          | done _ _ =>
+            exact ⟨[], .done _ (by simpa using hE), hsum⟩
+          | comp _ v r u cs2 hne _ _ _ => simp at hne
+        · rename_i hE
+          split at hs
+          · simp at hs
+          · simp at hs
+          · rename_i v r hv
+            split at hs
+            · simp at hs
+            · rename_i u hu
+              split at hs
+              · simp at hs
+              · rename_i a' ha
+                simp only [Except.ok.injEq, Prod.mk.injEq] at hs
+                obtain ⟨rfl, rfl⟩ := hs
+                refine ⟨(v, u) :: cs, .comp _ v r u cs ?_ hv hu hc, by simp [durSum, ha, hsum]⟩
+                intro h0
+                rw [h0] at hE
+                exact hE rfl
+
+/-- Concrete syntax of one more component in front: separators from the trim set, a number not
+    starting with a trim character that `from_chars` reads up to the unit, a unit string of the
+    table without stop characters, then the end or a stop character (a digit, sign, `.`, blank). -/
+theorem DurComps.of_syntax (seps num ustr more : Str) (v : R) (u : Nat) (cs : List (R × Nat))
+    (hseps : ∀ c ∈ seps, c ∈ cfg.trim)
+    (hnum : ∃ c t, num = c :: t ∧ c ∉ cfg.trim)
+    (hpr : pr (num ++ ustr ++ more) = .ok v (ustr ++ more))
+    (hunit : cfg.unit? ustr = some u) (hustr : ∀ c ∈ ustr, c ∉ cfg.stop)
+    (hmore : more = [] ∨ ∃ c t, more = c :: t ∧ c ∈ cfg.stop)
+    (htl : DurComps cfg pr more cs) :
+    DurComps cfg pr (seps ++ num ++ ustr ++ more) ((v, u) :: cs) := by
+  obtain ⟨c0, t0, rfl, hc0⟩ := hnum
+  have hseps' : ∀ c ∈ seps, (fun c => cfg.trim.contains c) c = true := fun c hc => by
+    simpa using hseps c hc
+  have hdrop : ((seps ++ (c0 :: t0) ++ ustr ++ more).dropWhile fun c => cfg.trim.contains c) =
+      (c0 :: t0) ++ ustr ++ more := by
+    rw [List.append_assoc, List.append_assoc,
+      Proofs.C18.dropWhile_append_of_all _ seps _ hseps']
+    simp [List.dropWhile_cons, hc0]
+  have hu' : ∀ c ∈ ustr, (fun c => !cfg.stop.contains c) c = true := fun c hc => by
+    simpa using hustr c hc
+  have htake : ((ustr ++ more).takeWhile fun c => !cfg.stop.contains c) = ustr := by
+    rw [Proofs.C18.takeWhile_append_of_all _ ustr more hu']
+    rcases hmore with rfl | ⟨c, t, rfl, hc⟩
+    · simp
+    · simp [List.takeWhile_cons, hc]
+  have hdropu : ((ustr ++ more).dropWhile fun c => !cfg.stop.contains c) = more := by
+    rw [Proofs.C18.dropWhile_append_of_all _ ustr more hu']
+    rcases hmore with rfl | ⟨c, t, rfl, hc⟩
+    · simp
+    · simp [List.dropWhile_cons, hc]
+  refine .comp _ v (ustr ++ more) u cs ?_ ?_ ?_ ?_
+  · rw [hdrop]; simp
+  · rw [hdrop]; exact hpr
+  · rw [htake]; exact hunit
+  · rw [hdropu]; exact htl
+
+/-- The decomposition is unique. -/
+theorem DurComps.unique (s : Str) (c1 c2 : List (R × Nat)) (h1 : DurComps cfg pr s c1)
+    (h2 : DurComps cfg pr s c2) : c1 = c2 := by
+  induction h1 generalizing c2 with
+  | done s hd =>
+    cases h2 with
+    | done _ _ => rfl
+    | comp _ v rest u cs hne _ _ _ => exact absurd hd hne
+  | comp s v rest u cs hne hv hu htl ih =>
+    cases h2 with
+    | done _ hd => exact absurd hd hne
+    | comp _ v' rest' u' cs' hne' hv' hu' htl' =>
+      rw [hv] at hv'
+      simp only [NumRes.ok.injEq] at hv'
+      obtain ⟨rfl, rfl⟩ := hv'
+      rw [hu] at hu'
+      simp only [Option.some.injEq] at hu'
+      subst hu'
+      rw [ih _ htl']
+
+/-- **`parse_duration` accepts exactly the decomposable strings whose checked sum exists, with
+    that sum as result** (budget `value.length`, as the duration setter uses). -/
+theorem parse_duration_sum_round (hpr : FromCharsConsumes pr) (res : Nat) (value : Str) (t : Int) :
+    parseDuration cfg res pr value.length 0 value = (t, none) ↔
+      ∃ cs, DurComps cfg pr value cs ∧ durSum res 0 cs = some t := by
+  constructor
+  · exact comps_of_parseDuration cfg pr res value.length 0 value t
+  · rintro ⟨cs, hc, hs⟩
+    exact (parseDuration_of_comps cfg pr hpr res value cs hc 0).1 t hs
+
+/-- The duration setter on a decomposable value: stores the sum of the rounded components (and
+    that sum is inside `int64`), or throws `invalid_duration_value` without writing. -/
+theorem leaf_duration_sum (hpr : FromCharsConsumes pr) (res : Nat) (value : Str) (cs : List (R × Nat))
+    (hc : DurComps cfg pr value cs) :
+    (∀ t, durSum res 0 cs = some t →
+      setLeaf env cfg pr (.dur res) [] value = (some (.d t), none) ∧
+      t = (cs.map fun c => chronoRound c.2 res c.1).sum ∧ repMin ≤ t ∧ t ≤ repMax) ∧
+    (durSum res 0 cs = none → setLeaf env cfg pr (.dur res) [] value = (none, some .durValue)) := by
+  have h := parseDuration_of_comps cfg pr hpr res value cs hc 0
+  constructor
+  · intro t ht
+    have h0 : repMin ≤ (0 : Int) ∧ (0 : Int) ≤ repMax := by decide
+    have hs := durSum_eq_sum res 0 cs t h0 ht
+    refine ⟨by simp [setLeaf, h.1 t ht], by simpa using hs.1, hs.2⟩
+  · intro hn
+    have := h.2 hn
+    rcases hp : parseDuration cfg res pr value.length 0 value with ⟨t', e'⟩
+    rw [hp] at this
+    simp only at this
+    subst this
+    simp [setLeaf, hp]
+
+/-- **Rejected otherwise**: a value that has no decomposition with an accepted sum makes the
+    duration setter throw (`Invalid value` / `Invalid units`), nothing written. -/
+theorem malformed_duration_rejected (hpr : FromCharsConsumes pr) (res : Nat) (value : Str)
+    (h : ¬ ∃ cs t, DurComps cfg pr value cs ∧ durSum res 0 cs = some t) :
+    setLeaf env cfg pr (.dur res) [] value = (none, some .durValue) ∨
+    setLeaf env cfg pr (.dur res) [] value = (none, some .durUnits) := by
+  rcases hp : parseDuration cfg res pr value.length 0 value with ⟨t, _ | e⟩
+  · exact absurd ((parse_duration_sum_round cfg pr hpr res value t).1 hp)
+      (fun ⟨cs, hc, hs⟩ => h ⟨cs, t, hc, hs⟩)
+  · have := parseDuration_err cfg pr hpr res value.length 0 value e (Nat.le_refl _) (by rw [hp])
+    rcases this with rfl | rfl <;> simp [setLeaf, hp]
+
+/-- Every unit of a decomposition comes from the unit table. -/
+theorem DurComps.units_mem (s : Str) (cs : List (R × Nat)) (h : DurComps cfg pr s cs) :
+    ∀ c ∈ cs, ∃ name, (name, c.2) ∈ cfg.units := by
+  induction h with
+  | done s hd => simp
+  | comp s v rest u cs hne hv hu htl ih =>
+    intro c hc
+    simp only [List.mem_cons] at hc
+    rcases hc with rfl | hc
+    · simp only [DurCfg.unit?, Option.map_eq_some_iff] at hu
+      obtain ⟨p, hp, rfl⟩ := hu
+      exact ⟨p.1, List.mem_of_find?_eq_some hp⟩
+    · exact ih c hc
+
+/-- The `bool` setter restated against the *generated* literal list (`boolStrings`, re-read from
+    the `if` chain of `set_param(bool&)` in params.cpp): the value is looked up there.  Ties the
+    literals written in the hand model `setLeaf` to the source text. -/
+theorem leaf_bool_generated (value : Str) :
+    setLeaf env cfg pr .bool [] value =
+      match boolStrings.find? (·.1.toList == value) with
+      | some p => (some (.b p.2), none)
+      | none => (none, some .badBool) := by
+  rw [bool_strings_documented]
+  simp only [setLeaf, List.isEmpty_nil, Bool.not_true, Bool.false_eq_true, ↓reduceIte, List.find?]
+  by_cases h0 : value = "0".toList
+  · subst h0; rfl
+  · by_cases h1 : value = "false".toList
+    · subst h1; rfl
+    · by_cases h2 : value = "1".toList
+      · subst h2; rfl
+      · by_cases h3 : value = "true".toList
+        · subst h3; rfl
+        · have e0 : (value == "0".toList) = false := by simpa using h0
+          have e1 : (value == "false".toList) = false := by simpa using h1
+          have e2 : (value == "1".toList) = false := by simpa using h2
+          have e3 : (value == "true".toList) = false := by simpa using h3
+          have f0 : ("0".toList == value) = false := by simpa using fun h => h0 h.symm
+          have f1 : ("false".toList == value) = false := by simpa using fun h => h1 h.symm
+          have f2 : ("1".toList == value) = false := by simpa using fun h => h2 h.symm
+          have f3 : ("true".toList == value) = false := by simpa using fun h => h3 h.symm
+          simp only [e0, e1, e2, e3, f0, f1, f2, f3, Bool.or_self, Bool.false_eq_true, ↓reduceIte]
+
 end machinery
+
+/-- An enum field set to the *name* of a declared, non-deprecated enumerator receives that
+    enumerator's declared value — for every `enum class` with a table, on the generated data. -/
+theorem declared_enumerator_sets_value {R : Type} [Sub R] [Mul R] [Div R] [LT R] [DecidableLT R] [BEq R]
+    [DurScalar R] (cfg : DurCfg) (pr : Str → NumRes R) (ed : EnumDecl) (hed : ed ∈ enumDecls)
+    (e : String × Int × Bool) (he : e ∈ ed.enumerators) (hdep : e.2.2 = false) :
+    setLeaf env cfg pr (.enum ed.name) [] e.1.toList = (some (.e e.2.1), none) := by
+  have h := enumerators_by_name
+  simp only [enumeratorsByName, List.all_eq_true, Bool.or_eq_true, beq_iff_eq] at h
+  rcases h ed hed e he with h1 | h1
+  · rw [hdep] at h1; simp at h1
+  · exact leaf_enum_by_name env cfg pr ed.name e.1.toList (e.1, e.2.1) h1
+
 
 /-! ### `chrono::round` rounds to the nearest count, ties to even (exact arithmetic) -/
 
@@ -787,6 +1465,54 @@ theorem chrono_round_nearest_even (unitNs resNs : Nat) (v : ℚ) (hr : 0 < resNs
     simp only [beq_iff_eq]
   exact round_core (v * (m : ℚ)) _ key
 
+/-- The same for a resolution *coarser* than the unit (`unit ∣ res`, e.g. `"90s"` into a
+    `std::chrono::minutes` object): the division branch of `duration_cast`. -/
+theorem chrono_round_nearest_even_coarse (unitNs resNs : Nat) (v : ℚ) (hu : 0 < unitNs)
+    (hd : unitNs ∣ resNs) (hlt : unitNs < resNs) :
+    |v * unitNs / resNs - (chronoRound unitNs resNs v : ℚ)| ≤ 1 / 2 ∧
+    (|v * unitNs / resNs - (chronoRound unitNs resNs v : ℚ)| = 1 / 2 → chronoRound unitNs resNs v % 2 = 0) := by
+  obtain ⟨m, rfl⟩ := hd
+  have hm : 0 < m := Nat.pos_of_ne_zero (fun h => by simp [h] at hlt)
+  have hmq : (0 : ℚ) < (m : ℚ) := by exact_mod_cast hm
+  have hnle : ¬ unitNs * m ≤ unitNs := by omega
+  have hx : v * (unitNs : ℚ) / ((unitNs * m : Nat) : ℚ) = v / (m : ℚ) := by
+    have : (unitNs : ℚ) ≠ 0 := by exact_mod_cast hu.ne'
+    push_cast; field_simp
+  rw [hx]
+  have hdiv : unitNs * m / unitNs = m := Nat.mul_div_cancel_left m hu
+  have hfl := floor_fixup (v / (m : ℚ))
+  have hcond : ∀ c : Int, (v < (c : ℚ) * (m : ℚ)) ↔ (v / (m : ℚ) < (c : ℚ)) := fun c => by
+    rw [div_lt_iff₀ hmq]
+  have key : chronoRound unitNs (unitNs * m) v =
+      if v / (m : ℚ) - (⌊v / (m : ℚ)⌋ : ℚ) = ((⌊v / (m : ℚ)⌋ + 1 : Int) : ℚ) - v / (m : ℚ) then
+        (if ⌊v / (m : ℚ)⌋ % 2 = 0 then ⌊v / (m : ℚ)⌋ else ⌊v / (m : ℚ)⌋ + 1)
+      else if v / (m : ℚ) - (⌊v / (m : ℚ)⌋ : ℚ) < ((⌊v / (m : ℚ)⌋ + 1 : Int) : ℚ) - v / (m : ℚ) then
+        ⌊v / (m : ℚ)⌋ else ⌊v / (m : ℚ)⌋ + 1 := by
+    unfold chronoRound
+    simp only [hnle, ↓reduceIte, hdiv]
+    have hof : (DurScalar.ofInt ((m : Nat) : Int) : ℚ) = (m : ℚ) := by simp [DurScalar.ofInt]
+    rw [hof]
+    simp only [DurScalar.ofInt] at hfl ⊢
+    simp only [hcond, hfl, beq_iff_eq]
+    have e1 : (v - (⌊v / (m : ℚ)⌋ : ℚ) * (m : ℚ) = ((⌊v / (m : ℚ)⌋ + 1 : Int) : ℚ) * (m : ℚ) - v) ↔
+        (v / (m : ℚ) - (⌊v / (m : ℚ)⌋ : ℚ) = ((⌊v / (m : ℚ)⌋ + 1 : Int) : ℚ) - v / (m : ℚ)) := by
+      constructor
+      · intro h; field_simp; linarith
+      · intro h; field_simp at h; linarith
+    have e2 : (v - (⌊v / (m : ℚ)⌋ : ℚ) * (m : ℚ) < ((⌊v / (m : ℚ)⌋ + 1 : Int) : ℚ) * (m : ℚ) - v) ↔
+        (v / (m : ℚ) - (⌊v / (m : ℚ)⌋ : ℚ) < ((⌊v / (m : ℚ)⌋ + 1 : Int) : ℚ) - v / (m : ℚ)) := by
+      rw [sub_lt_sub_iff, sub_lt_sub_iff]
+      constructor
+      · intro h
+        have : v / (m:ℚ) + v / (m:ℚ) = (v + v) / (m : ℚ) := by ring
+        rw [this, div_lt_iff₀ hmq]; linarith
+      · intro h
+        have : v / (m:ℚ) + v / (m:ℚ) = (v + v) / (m : ℚ) := by ring
+        rw [this, div_lt_iff₀ hmq] at h; linarith
+    simp only [e1, e2]
+  exact round_core (v / (m : ℚ)) _ key
+
+
 /-- Every duration-typed member of every registered parameter struct has nanosecond resolution,
     and every unit of the generated unit table is a positive whole number of nanoseconds. -/
 theorem all_duration_fields_ns :
@@ -794,17 +1520,69 @@ theorem all_duration_fields_ns :
       match f.kind with | .dur r => r == 1 | _ => true) = true ∧
     (∀ u ∈ durCfg.units, 0 < u.2) := by decide
 
-/-- Hence, for every registered duration field and every unit the code accepts, a component
-    `v<unit>` contributes the integer nearest to `v·unit` ns, ties to even.
-    (`…_partial` in one respect only: resolutions *coarser* than the unit — `"500ms"` into a
-    `std::chrono::seconds` object, reachable through `set_params<std::chrono::seconds>` but not
-    through any registered struct — go through the division branch of `chronoRound`; for that
-    branch the statement `|v·unit/res − t| ≤ ½, ties to even` is exercised by the correspondence
-    and the monitor (leaf tops `us … h`) but not proved here.) -/
-theorem registered_duration_rounding_partial (u : String × Nat) (hu : u ∈ durCfg.units) (v : ℚ) :
+/-- Periods, in ns, of the `std::chrono` typedefs ([time.syn]). -/
+def chronoTypedefNs : List (String × Nat) :=
+  [("std::chrono::nanoseconds", 1), ("std::chrono::microseconds", 1000),
+   ("std::chrono::milliseconds", 1000000), ("std::chrono::seconds", 1000000000),
+   ("std::chrono::minutes", 60000000000), ("std::chrono::hours", 3600000000000)]
+
+/-- Resolutions of the duration types `set_param` is instantiated for (params.cpp). -/
+def instResolutions : List Nat :=
+  instList.filterMap fun i => (chronoTypedefNs.find? (·.1 == i)).map (·.2)
+
+/-- Every unit of the generated table and every instantiated resolution are positive and one
+    divides the other (so `duration_cast` multiplies or divides by an integer, as modelled). -/
+theorem units_vs_resolutions :
+    instResolutions = [1, 1000, 1000000, 1000000000, 60000000000, 3600000000000] ∧
+    (durCfg.units.all fun u => instResolutions.all fun r =>
+      decide (0 < u.2) && decide (0 < r) && (decide (u.2 % r = 0) || decide (r % u.2 = 0))) = true := by
+  decide
+
+/-- **Rounded to the field's resolution.**  For every unit of the generated unit table and every
+    duration type `set_param` is instantiated for (`nanoseconds` — the type of every registered
+    `max_time` — up to `hours`), a component `v<unit>` contributes the integer nearest to
+    `v·unit/res`, ties to even: this is what `std::chrono::round<Duration>` of the
+    `duration<double, unit>` computes.  Exact arithmetic; the binary64 run is tied by the
+    correspondence. -/
+theorem duration_rounding (u : String × Nat) (hu : u ∈ durCfg.units) (r : Nat) (hr : r ∈ instResolutions)
+    (v : ℚ) :
+    |v * u.2 / r - (chronoRound u.2 r v : ℚ)| ≤ 1 / 2 ∧
+    (|v * u.2 / r - (chronoRound u.2 r v : ℚ)| = 1 / 2 → chronoRound u.2 r v % 2 = 0) := by
+  have h := units_vs_resolutions.2
+  simp only [List.all_eq_true, Bool.and_eq_true, Bool.or_eq_true, decide_eq_true_eq] at h
+  obtain ⟨⟨hu0, hr0⟩, hdvd⟩ := h u hu r hr
+  rcases hdvd with hd | hd
+  · exact chrono_round_nearest_even u.2 r v hr0 hu0 (Nat.dvd_of_mod_eq_zero hd)
+  · have hd' : u.2 ∣ r := Nat.dvd_of_mod_eq_zero hd
+    rcases Nat.lt_or_ge u.2 r with hlt | hge
+    · exact chrono_round_nearest_even_coarse u.2 r v hu0 hd' hlt
+    · have : u.2 = r := Nat.le_antisymm (Nat.le_of_dvd hr0 hd') hge
+      exact chrono_round_nearest_even u.2 r v hr0 hu0 (this ▸ Nat.dvd_refl _)
+
+/-- The registered duration fields (`max_time`, ns): nearest to `v·unit` ns, ties to even. -/
+theorem registered_duration_rounding (u : String × Nat) (hu : u ∈ durCfg.units) (v : ℚ) :
     |v * u.2 / (1 : Nat) - (chronoRound u.2 1 v : ℚ)| ≤ 1 / 2 ∧
     (|v * u.2 / (1 : Nat) - (chronoRound u.2 1 v : ℚ)| = 1 / 2 → chronoRound u.2 1 v % 2 = 0) :=
-  chrono_round_nearest_even u.2 1 v Nat.one_pos (all_duration_fields_ns.2 u hu) (Nat.one_dvd _)
+  duration_rounding u hu 1 (by decide) v
+
+/-- **Durations: units summed, each component rounded to the field's resolution** — on the
+    generated unit table, for every instantiated resolution `r`.  If the value string decomposes
+    into components `(vᵢ, unitᵢ)` (`DurComps`: optional `+` / blanks, a number `from_chars`
+    accepts, a unit token of the table, repeated) and the `int64` range is respected
+    (`durSum … = some t`), the field receives `t = Σ round(vᵢ·unitᵢ/r)` where each `round` is the
+    nearest integer, ties to even, and every `unitᵢ` is an entry of the generated table. -/
+theorem duration_field_sum_round (pr : Str → NumRes ℚ) (hpr : FromCharsConsumes pr) (r : Nat)
+    (hr : r ∈ instResolutions) (value : Str) (cs : List (ℚ × Nat)) (hc : DurComps durCfg pr value cs)
+    (t : Int) (ht : durSum r 0 cs = some t) :
+    setLeaf env durCfg pr (.dur r) [] value = (some (.d t), none) ∧
+    t = (cs.map fun c => chronoRound c.2 r c.1).sum ∧
+    ∀ c ∈ cs, (∃ name, (name, c.2) ∈ durCfg.units) ∧
+      |c.1 * c.2 / r - (chronoRound c.2 r c.1 : ℚ)| ≤ 1 / 2 ∧
+      (|c.1 * c.2 / r - (chronoRound c.2 r c.1 : ℚ)| = 1 / 2 → chronoRound c.2 r c.1 % 2 = 0) := by
+  obtain ⟨h1, h2, -⟩ := (leaf_duration_sum env durCfg pr hpr r value cs hc).1 t ht
+  refine ⟨h1, h2, fun c hcm => ?_⟩
+  obtain ⟨name, hn⟩ := DurComps.units_mem durCfg pr value cs hc c hcm
+  exact ⟨⟨name, hn⟩, duration_rounding (name, c.2) hn r hr c.1⟩
 
 /-! ## Examples: the hypotheses are satisfiable on concrete, non-trivial instances -/
 
@@ -816,6 +1594,76 @@ def exOracle (s : Str) : NumRes ℚ :=
   | .ok v rest => .ok (v : ℚ) rest
   | .invalid => .invalid
   | .range => .range
+
+theorem exOracle_consumes : FromCharsConsumes exOracle := by
+  intro s v rest h
+  unfold exOracle at h
+  split at h
+  · rename_i v' rest' hp
+    simp only [NumRes.ok.injEq] at h
+    rw [← h.2]
+    exact parseInt_consumes _ _ s v' rest' hp
+  · simp at h
+  · simp at h
+
+/-- Decimal oracle for the examples: `digits[.digits]` with at least one digit. -/
+def exDecBody (body : Str) : Option (ℚ × Str) :=
+  match body.dropWhile Char.isDigit with
+  | '.' :: t =>
+    if (body.takeWhile Char.isDigit).isEmpty && (t.takeWhile Char.isDigit).isEmpty then none
+    else some ((digitsVal (body.takeWhile Char.isDigit) : ℚ) +
+      (digitsVal (t.takeWhile Char.isDigit) : ℚ) / 10 ^ (t.takeWhile Char.isDigit).length,
+      t.dropWhile Char.isDigit)
+  | r1 =>
+    if (body.takeWhile Char.isDigit).isEmpty then none
+    else some ((digitsVal (body.takeWhile Char.isDigit) : ℚ), r1)
+
+/-- … with an optional leading `-`. -/
+def exDec (s : Str) : NumRes ℚ :=
+  match s with
+  | '-' :: t => match exDecBody t with | some p => .ok (-p.1) p.2 | none => .invalid
+  | _ => match exDecBody s with | some p => .ok p.1 p.2 | none => .invalid
+
+theorem exDecBody_consumes (body : Str) (p : ℚ × Str) (h : exDecBody body = some p) :
+    p.2.length < body.length := by
+  unfold exDecBody at h
+  have hle := Proofs.C18.length_dropWhile_le Char.isDigit body
+  split at h
+  · rename_i t ht
+    split at h
+    · simp at h
+    · simp only [Option.some.injEq] at h
+      rw [← h]
+      have h3 := Proofs.C18.length_dropWhile_le Char.isDigit t
+      have : (body.dropWhile Char.isDigit).length = t.length + 1 := by rw [ht]; simp
+      simp only
+      omega
+  · split at h
+    · simp at h
+    · rename_i hne
+      simp only [Option.some.injEq] at h
+      rw [← h]
+      have := Proofs.C18.length_dropWhile_lt Char.isDigit body (by simpa using hne)
+      simpa using this
+
+theorem exDec_consumes : FromCharsConsumes exDec := by
+  intro s v rest h
+  unfold exDec at h
+  split at h
+  · rename_i t
+    cases hb : exDecBody t with
+    | none => simp [hb] at h
+    | some p =>
+      simp only [hb, NumRes.ok.injEq] at h
+      have := exDecBody_consumes t p hb
+      rw [← h.2]
+      simp only [List.length_cons]; omega
+  · cases hb : exDecBody s with
+    | none => simp [hb] at h
+    | some p =>
+      simp only [hb, NumRes.ok.injEq] at h
+      have := exDecBody_consumes s p hb
+      rw [← h.2]; exact this
 
 /-- `p.Lipschitz.δ`-style nested addressing resolves through the generated tables. -/
 example : addressed env 8 (.struct "PANOCParams") [] "Lipschitz.δ".toList =
@@ -845,7 +1693,7 @@ example : parseInt (-128) 127 "-128".toList = .ok (-128) [] := by decide
 
 /-- `used` counts and prefix filter on a concrete option list (model over the generated tables) -/
 example :
-    (setParams env durCfg exOracle 8 (.struct "PANOCParams") "p".toList
+    (setParams env durCfg exOracle (.struct "PANOCParams") "p".toList
       ["q.max_iter=1".toList, "p.max_iter=7".toList, "pp.max_iter=3".toList, "p.print_interval=2".toList]
       (fun _ => none)).2 = ([0, 1, 0, 1], none) := by decide
 
@@ -863,6 +1711,220 @@ example : durAdd 3600000000000 1 ((10 : ℚ) ^ 30) 0 = none := by
   simp only [durAdd, durCount, chronoRound, DurScalar.ofInt, DurScalar.trunc, repMin, repMax]; norm_num
 example : durAdd 1 1 (9000000000000000000 : ℚ) 9000000000000000000 = none := by
   simp only [durAdd, durCount, chronoRound, DurScalar.ofInt, DurScalar.trunc, repMin, repMax]; norm_num
+
+
+/-! ### (f) budgets -/
+example : (setParams env durCfg exDec (.struct "PANOCParams") "p".toList
+      ["p.max_time=1h30min".toList, "q.x.y.z.w.v.u.t.s.r=1".toList, "p.Lipschitz.δ.a.b.c.d.e.f.g.h.i=3".toList]
+      (fun _ => none)).2.2 ≠ some .fuel :=
+  setParams_never_fuel env durCfg exDec generated_env_no_empty_key exDec_consumes _ _ _ _
+
+example : (setParams env durCfg exDec (.struct "PANOCParams") "p".toList
+      ["p.max_time=1h30min".toList, "q.x.y.z.w.v.u.t.s.r=1".toList, "p.Lipschitz.δ.a.b.c.d.e.f.g.h.i=3".toList]
+      (fun _ => none)).2 = ([1, 0, 1], some .indexed) := by decide +kernel
+
+/-- outside the two facts the budgets *can* run out -/
+example : (parseDuration durCfg 1 (fun s => NumRes.ok (1 : ℚ) s) 2 0 "5s".toList).2 = some .fuel := by
+  decide +kernel
+
+def cyclicEnv : Env := { structs := [("S", [{ key := "", member := "m", kind := .struct "S" }])], enums := [] }
+example : (setParam cyclicEnv durCfg exDec (keyFuel []) (.struct "S") [] [] "1".toList (fun _ => none)).2 =
+    some .fuel := by decide +kernel
+
+
+/-- the budget theorems with every hypothesis instantiated: an unknown key below a nested struct
+    is `Invalid key` whatever the budget above the key length; the duration loop likewise -/
+example : setParam env durCfg exDec 100 (.struct "PANOCParams") [] "Lipschitz.delta".toList "1".toList
+    (fun _ => none) = ((fun _ => none), some .invalidKey) :=
+  setParam_of_not_addressed env durCfg exDec generated_env_no_empty_key 100 _ _ _ _ _ (by decide)
+    (by decide +kernel)
+
+example : setParam env durCfg exDec 100 (.struct "PANOCParams") [] "Lipschitz.δ".toList "1".toList
+    (fun _ => none) = setParam env durCfg exDec (keyFuel "Lipschitz.δ".toList) (.struct "PANOCParams") []
+      "Lipschitz.δ".toList "1".toList (fun _ => none) :=
+  setParam_fuel_suffices env durCfg exDec generated_env_no_empty_key 100 _ _ _ _ _ (by decide)
+
+example : addressed env 100 (.struct "PANOCParams") [] "Lipschitz.δ".toList =
+    addressed env (keyFuel "Lipschitz.δ".toList) (.struct "PANOCParams") [] "Lipschitz.δ".toList :=
+  addressed_fuel_suffices env generated_env_no_empty_key 100 _ _ _ (by decide)
+
+example : parseDuration durCfg 1 exDec 100 0 "1h30min".toList =
+    parseDuration durCfg 1 exDec "1h30min".toList.length 0 "1h30min".toList :=
+  parseDuration_fuel_suffices durCfg exDec exDec_consumes 1 100 0 _ (by decide)
+
+example : (parseDuration durCfg 1 exDec 7 0 "1h30xyz".toList).2 = some .durUnits ∧
+    (Err.durUnits = .durValue ∨ Err.durUnits = .durUnits) :=
+  ⟨by decide +kernel, parseDuration_err durCfg exDec exDec_consumes 1 7 0 "1h30xyz".toList .durUnits
+    (by decide) (by decide +kernel)⟩
+
+/-! ### leaf setters on the generated tables -/
+example : pieces ("1,2.5,,-3".toList.count ',' + 1) "1,2.5,,-3".toList =
+    ["1".toList, "2.5".toList, [], "-3".toList] := by decide
+
+/-- `leaf_vec_elementwise` with its hypothesis instantiated; an empty element is rejected -/
+example : setLeaf env durCfg exDec .vec [] "1,2.5,-3".toList = (some (.v [1, 5 / 2, -3]), none) :=
+  leaf_vec_elementwise env durCfg exDec [] "1,2.5,-3".toList [1, 5 / 2, -3] (by
+    rw [show pieces ("1,2.5,-3".toList.count ',' + 1) "1,2.5,-3".toList =
+      ["1".toList, "2.5".toList, "-3".toList] from by decide]
+    refine .cons (by decide +kernel) (.cons (by decide +kernel) (.cons (by decide +kernel) .nil)))
+
+example : setLeaf env durCfg exDec .vec [] "1,2.5,,-3".toList = (none, some .numInvalid) := by
+  decide +kernel
+
+example : setLeaf env durCfg exDec (.enum "PANOCStopCrit") [] "FPRNorm2".toList = (some (.e 7), none) :=
+  declared_enumerator_sets_value durCfg exDec (enumDecls[0]'(by decide)) (List.getElem_mem _)
+    ("FPRNorm2", 7, false) (by decide) rfl
+
+
+example : setLeaf env durCfg exDec .bool [] "true".toList = (some (.b true), none) ∧
+    setLeaf env durCfg exDec .bool [] "yes".toList = (none, some .badBool) := by
+  constructor <;> (rw [leaf_bool_generated]; decide)
+
+/-! ### (h) a first key component that properly extends the prefix is a different prefix -/
+
+/-- `solverx.…`, `solver2=…`, `solver_x.…`, `solve.…` with prefix `solver`: not applied, not
+    counted — even when key or value would be rejected (`solverx.nokey`, `solverx.max_iter=abc`);
+    `solver.…` is applied and counted once. -/
+example :
+    (setParams env durCfg exDec (.struct "PANOCParams") "solver".toList
+      ["solverx.max_iter=1".toList, "solver.max_iter=7".toList, "solver2=3".toList,
+       "solverx.nokey=1".toList, "solverx.max_iter=abc".toList, "solve.max_iter=5".toList,
+       "solver_x.max_iter=4".toList, "solver.print_interval=2".toList]
+      (fun _ => none)).2 = ([0, 1, 0, 0, 0, 0, 0, 1], none) ∧
+    (setParams env durCfg exDec (.struct "PANOCParams") "solver".toList
+      ["solverx.max_iter=1".toList, "solver.max_iter=7".toList, "solver2=3".toList,
+       "solverx.nokey=1".toList, "solverx.max_iter=abc".toList, "solve.max_iter=5".toList,
+       "solver_x.max_iter=4".toList, "solver.print_interval=2".toList]
+      (fun _ => none)).1 ["max_iter"] = some (.i 7) := by decide +kernel
+
+example : optPrefix "solverx.max_iter=1".toList ≠ "solver".toList :=
+  optPrefix_ne_of_proper_extension "solver".toList 'x' ".max_iter=1".toList (by decide)
+
+/-- `other_prefix_option_ignored` with every hypothesis instantiated: inserting
+    `solverx.max_iter=abc` between two options of prefix `solver` changes nothing but its own
+    (zero) `used` entry. -/
+example :
+    (setParams env durCfg exDec (.struct "PANOCParams") "solver".toList
+      (["solver.max_iter=7".toList] ++ "solverx.max_iter=abc".toList :: ["solver.print_interval=2".toList])
+      (fun _ => none)).2 = ([1, 0, 1], none) := by
+  have h := other_prefix_option_ignored env durCfg exDec (.struct "PANOCParams") "solver".toList
+    ["solver.max_iter=7".toList] ["solver.print_interval=2".toList] "solverx.max_iter=abc".toList
+    (fun _ => none) (optPrefix_ne_of_proper_extension "solver".toList 'x' ".max_iter=abc".toList (by decide))
+  have h0 : (setParams env durCfg exDec (.struct "PANOCParams") "solver".toList
+      (["solver.max_iter=7".toList] ++ ["solver.print_interval=2".toList]) (fun _ => none)).2 =
+      ([1, 1], none) := by decide +kernel
+  rw [Prod.ext_iff]
+  exact ⟨by rw [h.2.2, h0]; rfl, by rw [h.2.1, h0]⟩
+
+/-- `matching_option_applied_once` / `set_params_append` with every hypothesis instantiated -/
+example :
+    setParams env durCfg exDec (.struct "PANOCParams") "solver".toList
+      (["solverx.max_iter=1".toList] ++ "solver.max_iter=7".toList :: ["solver.print_interval=2".toList])
+      (fun _ => none) =
+    match setParam env durCfg exDec (keyFuel "max_iter".toList) (.struct "PANOCParams") []
+        "max_iter".toList "7".toList (fun _ => none) with
+    | (st2, some err) => (st2, [0] ++ 1 :: [0], some err)
+    | (st2, none) =>
+      ((setParams env durCfg exDec (.struct "PANOCParams") "solver".toList
+          ["solver.print_interval=2".toList] st2).1,
+        [0] ++ 1 :: (setParams env durCfg exDec (.struct "PANOCParams") "solver".toList
+          ["solver.print_interval=2".toList] st2).2.1,
+        (setParams env durCfg exDec (.struct "PANOCParams") "solver".toList
+          ["solver.print_interval=2".toList] st2).2.2) :=
+  matching_option_applied_once env durCfg exDec (.struct "PANOCParams") "solver".toList
+    ["solverx.max_iter=1".toList] ["solver.print_interval=2".toList] "solver.max_iter=7".toList
+    (fun _ => none) (fun _ => none) [0] (by decide) (by
+      have h := other_prefix_ignored env durCfg exDec (.struct "PANOCParams") "solver".toList
+        ["solverx.max_iter=1".toList] (fun _ => none) (by
+          intro kv hkv
+          simp only [List.mem_singleton] at hkv
+          subst hkv
+          exact optPrefix_ne_of_proper_extension "solver".toList 'x' ".max_iter=1".toList (by decide))
+      simpa using h)
+
+/-! ### (g) multi-component durations -/
+
+example : exDec "2min0.5s".toList = .ok 2 "min0.5s".toList ∧ exDec "0.5s".toList = .ok (1 / 2) "s".toList ∧
+    exDec "-12.25x".toList = .ok (-49 / 4) "x".toList ∧ exDec "s".toList = .invalid := by decide +kernel
+
+/-- `"2min0.5s"` is `[2 min, 0.5 s]`, `"1h30min"` is `[1 h, 30 min]`, `" 1min +12s  13ms"` is
+    `[1 min, 12 s, 13 ms]` (built with `DurComps.of_syntax`, every hypothesis discharged). -/
+theorem ex_comps_2min05s :
+    DurComps durCfg exDec "2min0.5s".toList [((2 : ℚ), 60000000000), ((1 / 2 : ℚ), 1000000000)] := by
+  have h2 : DurComps durCfg exDec "0.5s".toList [((1 / 2 : ℚ), 1000000000)] :=
+    DurComps.of_syntax durCfg exDec [] "0.5".toList "s".toList [] (1 / 2) 1000000000 []
+      (by simp) ⟨'0', ".5".toList, by decide, by decide⟩ (by decide +kernel) (by decide) (by decide)
+      (Or.inl rfl) (.done [] rfl)
+  exact DurComps.of_syntax durCfg exDec [] "2".toList "min".toList "0.5s".toList 2 60000000000 _
+    (by simp) ⟨'2', [], by decide, by decide⟩ (by decide +kernel) (by decide) (by decide)
+    (Or.inr ⟨'0', ".5s".toList, by decide, by decide⟩) h2
+
+theorem ex_comps_1h30min :
+    DurComps durCfg exDec "1h30min".toList [((1 : ℚ), 3600000000000), ((30 : ℚ), 60000000000)] := by
+  have h2 : DurComps durCfg exDec "30min".toList [((30 : ℚ), 60000000000)] :=
+    DurComps.of_syntax durCfg exDec [] "30".toList "min".toList [] 30 60000000000 []
+      (by simp) ⟨'3', "0".toList, by decide, by decide⟩ (by decide +kernel) (by decide) (by decide)
+      (Or.inl rfl) (.done [] rfl)
+  exact DurComps.of_syntax durCfg exDec [] "1".toList "h".toList "30min".toList 1 3600000000000 _
+    (by simp) ⟨'1', [], by decide, by decide⟩ (by decide +kernel) (by decide) (by decide)
+    (Or.inr ⟨'3', "0min".toList, by decide, by decide⟩) h2
+
+/-- `duration_field_sum_round` with every hypothesis instantiated, ns field and `seconds` object:
+    `2min0.5s` = 120 500 000 000 ns = 2·60e9 + round(0.5·1e9); into `std::chrono::seconds` it is
+    120 + round(0.5) = 120 (tie to even); `1h30min` = 5400 s. -/
+example : setLeaf env durCfg exDec (.dur 1) [] "2min0.5s".toList = (some (.d 120500000000), none) :=
+  (duration_field_sum_round exDec exDec_consumes 1 (by decide) _ _ ex_comps_2min05s 120500000000
+    (by decide +kernel)).1
+
+example : setLeaf env durCfg exDec (.dur 1000000000) [] "2min0.5s".toList = (some (.d 120), none) ∧
+    (120 : Int) = chronoRound 60000000000 1000000000 (2 : ℚ) + chronoRound 1000000000 1000000000 (1 / 2 : ℚ) := by
+  have h := duration_field_sum_round exDec exDec_consumes 1000000000 (by decide) _ _ ex_comps_2min05s 120
+    (by decide +kernel)
+  exact ⟨h.1, by simpa using h.2.1⟩
+
+example : setLeaf env durCfg exDec (.dur 1000000000) [] "1h30min".toList = (some (.d 5400), none) :=
+  (duration_field_sum_round exDec exDec_consumes 1000000000 (by decide) _ _ ex_comps_1h30min 5400
+    (by decide +kernel)).1
+
+/-- rejected otherwise: unknown unit in the second component, a letter where a number must
+    start, a component that leaves the `int64` range (`leaf_duration_sum`, second part) -/
+example : setLeaf env durCfg exDec (.dur 1) [] "1h30x".toList = (none, some .durUnits) ∧
+    setLeaf env durCfg exDec (.dur 1) [] "1h min".toList = (none, some .durValue) ∧
+    setLeaf env durCfg exDec (.dur 1) [] "1h2600000h".toList = (none, some .durValue) := by
+  decide +kernel
+
+example : durSum 1 0 [((1 : ℚ), 3600000000000), ((2600000 : ℚ), 3600000000000)] = none := by
+  decide +kernel
+
+/-- `malformed_duration_rejected` with its hypothesis discharged: `"1h30x"` has no decomposition
+    (by `parse_duration_sum_round`, since `parse_duration` stops with `Invalid units`) -/
+example : setLeaf env durCfg exDec (.dur 1) [] "1h30x".toList = (none, some .durValue) ∨
+    setLeaf env durCfg exDec (.dur 1) [] "1h30x".toList = (none, some .durUnits) :=
+  malformed_duration_rejected env durCfg exDec exDec_consumes 1 _ (by
+    rintro ⟨cs, t, hc, hs⟩
+    have h1 := (parse_duration_sum_round durCfg exDec exDec_consumes 1 "1h30x".toList t).2 ⟨cs, hc, hs⟩
+    have h2 : (parseDuration durCfg 1 exDec "1h30x".toList.length 0 "1h30x".toList).2 = some .durUnits := by
+      decide +kernel
+    rw [h1] at h2
+    simp at h2)
+
+example : ∀ c2, DurComps durCfg exDec "2min0.5s".toList c2 →
+    c2 = [((2 : ℚ), 60000000000), ((1 / 2 : ℚ), 1000000000)] :=
+  fun c2 h => DurComps.unique durCfg exDec _ _ _ h ex_comps_2min05s
+
+/-- rounding into a coarser type: `90s` → 2 min (1.5, tie to even), `30s` → 0 min (0.5, tie to
+    even), `500ms` → 0 s, `1500ms` → 2 s -/
+example : chronoRound 1000000000 60000000000 (90 : ℚ) = 2 ∧ chronoRound 1000000000 60000000000 (30 : ℚ) = 0 ∧
+    chronoRound 1000000 1000000000 (500 : ℚ) = 0 ∧ chronoRound 1000000 1000000000 (1500 : ℚ) = 2 := by
+  decide +kernel
+
+example : |(90 : ℚ) * (1000000000 : Nat) / (60000000000 : Nat) -
+    (chronoRound 1000000000 60000000000 (90 : ℚ) : ℚ)| ≤ 1 / 2 :=
+  (chrono_round_nearest_even_coarse 1000000000 60000000000 90 (by decide) (by decide) (by decide)).1
+
+example : |(1500 : ℚ) * (1000000 : Nat) / (1000000000 : Nat) -
+    (chronoRound 1000000 1000000000 (1500 : ℚ) : ℚ)| ≤ 1 / 2 :=
+  (duration_rounding ("ms", 1000000) (by decide) 1000000000 (by decide) 1500).1
 
 end examples
 
